@@ -205,7 +205,14 @@ impl<'a> ValueGen<'a> {
 			}
 			Eff::Fixed(n) => Val::Fixed(rng.bytes(n)),
 			Eff::Enum => match &self.s.node(id).kind {
-				Kind::Enum { symbols, .. } => Val::Enum(rng.below(symbols.len())),
+				Kind::Enum { symbols, .. } => {
+					// ends of the range as often as the middle
+					match rng.below(4) {
+						0 => Val::Enum(symbols.len() - 1),
+						1 => Val::Enum(symbols.len().min(65) - 1),
+						_ => Val::Enum(rng.below(symbols.len())),
+					}
+				}
 				_ => unreachable!(),
 			},
 			Eff::Array(item) => {
